@@ -32,7 +32,7 @@ PROPS["C18"] = dict(
     proof_files=["Proofs/ReloadId.v", "Proofs/ReloadIdAccept.v", "Tie/ReloadId.v", "Props/C18.v"],
     proof_targets=["Props/C18.vo"],
     props_module="Props.C18",
-    theorems=["C18_update_code_is_max", "C18_update_true_iff_grew", "C18_never_is_least",
+    theorems=["C18_update_code_is_max", "C18_code_ids_compare_as_numbers", "C18_update_true_iff_grew", "C18_never_is_least",
               "C18_atomic_code_is_model", "C18_one_atomic_access_per_method", "C18_final_is_max",
               "C18_cell_monotone", "C18_one_true_per_growth",
               "C18_update_answer_is_growth_of_that_step", "C18_accept_complete"],
@@ -64,8 +64,9 @@ PROPS["C08"] = dict(
                "DepsGraph::visit marks before recursing; every step of N callers and the reloader strictly "
                "decreases a measure, so every execution has at most N*(16+4(N+1))+1 steps (no fairness "
                "assumption) and can only end with every caller returned; both reloader channels are "
-               "unbounded (senders never block).  Partial: the bridge from the relational protocol model "
-               "to the executable one is not proved; OS scheduling, condvar and channel behaviour are "
+               "unbounded (senders never block); the executable model (the one that refutes the protocol "
+               "before D1) steps exactly like the relational one, so it never deadlocks and does bounded "
+               "work under every schedule.  Partial: OS scheduling, condvar and channel behaviour are "
                "modelled, not verified.",
     level_note="Trusted: Coq kernel+VM, rs2v printer, Rust/Script.v action classification, mutual exclusion "
                "of Mutex, Condvar wakes every waiter on notify_all and has no lost wake-ups, FIFO of "
@@ -73,22 +74,25 @@ PROPS["C08"] = dict(
     gen=["HotReloading", "Deps", "Private"],
     model_files=["Rust/Ast.v", "Rust/Syntax.v", "Rust/Script.v", "Ref/Answers.v"],
     model_targets=["Ref/Answers.vo", "Rust/Script.vo"],
-    proof_files=["Proofs/AnsInv.v", "Proofs/AnsR.v", "Proofs/AnsC.v", "Proofs/AnsWork.v", "Proofs/Dfs.v", "Witness/OldD1.v",
+    proof_files=["Proofs/AnsInv.v", "Proofs/AnsR.v", "Proofs/AnsC.v", "Proofs/AnsWork.v", "Proofs/AnsBridge.v", "Proofs/Dfs.v", "Witness/OldD1.v",
                  "Tie/Answers.v", "Tie/Graph.v", "Props/C08.v"],
     proof_targets=["Props/C08.vo", "Witness/OldD1.vo"],
     props_module="Props.C08",
     theorems=["C08_code_has_the_protocol_shapes", "C08_code_senders_never_block", "C08_no_deadlock", "C08_every_step_decreases_the_measure",
               "C08_bounded_work", "C08_every_call_returns", "C08_released_by_own_token",
               "C08_sort_terminates", "C08_sort_exact_and_duplicate_free",
-              "C08_code_marks_before_recursing", "C08_old_visit_diverges"],
-    engines=[("answers", ["--parts", "shapes,flood,conc"])],
+              "C08_code_marks_before_recursing", "C08_old_visit_diverges",
+              "C08_executable_model_never_deadlocks", "C08_executable_model_bounded_work",
+              "C08_executable_model_rests_only_when_all_returned"],
+    engines=[("answers", ["--parts", "shapes,flood,conc,gone"])],
     thorough_features=[["parking_lot"]],
     disagreement_is_violation=True,
     rule="answers: (B) every digraph of get_cached look-ups on <=2 (quick) / <=3 (thorough) TNode assets "
          "incl. self-loops and cycles, plus random larger shapes mixing acyclic load edges, each run in a "
          "child process through load, per-node edits, batched events and hot_reload (abort/hang of the "
          "child = failure); (A) 1..16 threads calling hot_reload concurrently with loader threads and "
-         "event bursts under a 4 s no-progress watchdog.  Non-trivial = shape with at least one edge, "
+         "event bursts under a 4 s no-progress watchdog; (E) 1 and 4 threads calling hot_reload after the "
+         "source let go of its event sender and the reloader thread left.  Non-trivial = shape with at least one edge, "
          "or a concurrent configuration; distinct = distinct shape/configuration.",
     trusted_base=["Mutex/Condvar semantics (mutual exclusion; notify_all wakes all current waiters; no "
                   "reliance on spurious wake-ups), FIFO crossbeam channel: modelled",
@@ -354,8 +358,10 @@ sys_prop(
     "argument when the key is present, and inserts exactly its argument otherwise; remove / take delete "
     "exactly the named key (take returning the stored value), clear empties the map; a successful load is "
     "cached under its key.  One model serves the three front-ends; sysdiff runs the same histories through "
-    "all of them.  Partial: `a failed load caches nothing under its own key` is observed by the "
-    "correspondence, not proved (it needs a termination argument for self-referential scripts).",
+    "all of them.  a load that "
+    "does not succeed performs no insertion itself, and for a type without nested loads leaves the map exactly as "
+    "it was.  Partial: for a Compound whose loader requests its own key, `nothing under its own key` is observed "
+    "by the correspondence only (the real code does not terminate there; the fuelled model does).",
     ["Proofs/SysGrows.v", "Proofs/SysStatic.v", "Proofs/SysMap.v", "Tie/Graph.v", "Tie/Maps.v", "Tie/Records.v", "Props/C02.v"],
     ["Props/C02.vo"],
     ["C02_load_only_adds", "C02_load_owned_adds_nothing_of_its_own", "C02_get_cached_and_contains_add_nothing",
@@ -363,7 +369,8 @@ sys_prop(
      "C02_get_or_insert_never_overwrites", "C02_get_or_insert_inserts_when_absent",
      "C02_remove_deletes_exactly_its_key", "C02_take_deletes_exactly_its_key_and_returns_it",
      "C02_clear_empties", "C02_code_keys_compare_type_and_id", "C02_code_maps_address_the_given_key",
-     "C02_code_keys_carry_the_id_as_given", "C02_code_lookup_before_load"],
+     "C02_code_keys_carry_the_id_as_given", "C02_code_clear_empties_the_whole_map", "C02_code_lookup_before_load",
+     "C02_failed_plain_load_adds_nothing", "C02_failed_load_inserts_nothing_itself"],
     ["Private", "Deps", "CacheMap", "LocalMap", "Anycache"], ["handle-changed", "key-type-confusion", "racers-disagree"],
     extra_engines=[("racediff", ["--parts", "reentrant"])])
 
@@ -648,14 +655,14 @@ PROPS["C11"] = dict(
                "equality inside Coq); `an unreadable sub-directory is skipped without hiding its siblings` is "
                "the sysdiff correspondence with Ref.Sys.load_rec_dir_value.",
     level_note="Trusted: as C04; the sort order compared is byte order of the joined ids.",
-    gen=["Dirs", "Flags"],
+    gen=["Dirs", "Flags", "Archive"],
     model_files=["Ref/Tree.v", "Ref/Archive.v", "Corr/Common.v", "Corr/SrcCheck.v", "Ref/Load.v", "Ref/Sys.v", "Corr/SysCheck.v"],
     model_targets=["Corr/SrcCheck.vo", "Corr/SysCheck.vo"],
-    proof_files=["Proofs/Tree.v", "Tie/Dirs.v", "Props/C11.v"],
+    proof_files=["Proofs/Tree.v", "Tie/Dirs.v", "Tie/Archive.v", "Props/C11.v"],
     proof_targets=["Props/C11.vo"],
     props_module="Props.C11",
     theorems=["C11_dir_ids_are_exactly_the_matching_files", "C11_missing_directory_is_an_error",
-              "C11_rec_dir_ids_is_the_union", "C11_code_as_specified"],
+              "C11_rec_dir_ids_is_the_union", "C11_code_as_specified", "C11_code_archives_list_each_entry_once"],
     engines=[("srcdiff", []), ("sysdiff", ["--mode", "cold", "--cases", "200"])],
     relevant_classes=["iter-mismatch"],
     rule=SRC_RULE,
